@@ -782,6 +782,13 @@ func (r *Room) PublishUsersInCallChanged(changed []map[string]interface{}, users
 			continue
 		}
 
+		if !r.HasSession(session) {
+			// Only sessions that are in this room can be in its call. The flag
+			// would otherwise stay behind when the session leaves its own room
+			// or is closed.
+			continue
+		}
+
 		if inCall {
 			r.mu.Lock()
 			if !r.inCallSessions[session] {
